@@ -1,10 +1,24 @@
-"""C03: dispatch goes to a least-loaded open member (heap and aperture balancers)."""
+"""C03: dispatch goes to a least-loaded open member (heap balancer; aperture inherits the heap)."""
+CLAIMED = True
 UNITS = []   # every FUNCTIONS entry with 'C03' in props is added automatically
-MIN_OBLIGATIONS = 60
+MIN_OBLIGATIONS = 600
+DESIGN_REF = 'DESIGN.md section 3, C03'
+TECHNIQUE = 'deductive verification: contracts + loop invariants on the real heap.py functions, VCs from the ast, z3/cvc5'
+LEVEL_TEXT = ('Every obligation generated from the current source of Heap.Swap/FixUp/FixDown and HeapBalancerSink.__Get/__Put/_AddSink/_RemoveSink/'
+              '_AsyncProcessRequestImpl against the sidecar contracts is discharged by an SMT solver, for all heap sizes, loads and random draws: '
+              'the heap invariant (shape, index bijection, order, node universe, load encoding, down list) is established and preserved by every operation, '
+              'and the dispatch point proves from it that the chosen member is a minimum of the (load,index) order, is open unless every member is marked down, '
+              'and has the fewest outstanding requests among up-marked members.')
+LEVEL_NOTE = ('Trusted: the pyvc encoding of python (DESIGN 2.4), z3/cvc5, assumed contracts of externs (random.randint, channel Close/AsyncProcessRequest, channel factory), '
+              'assumed contracts of _FindNodeByEndpoint and _OpenNode (listed in the evidence), the hook contracts _OnGet/_OnPut/_OnNodeDown as behavioural-subtyping obligations. '
+              'Not proved: termination of __Get; that every down-marked member is on the down list (completeness of the resurrection scan); fewer than 2^31-3 outstanding requests per member is assumed.')
 ASSUMPTIONS = [
-  'floats/ints: loads are python ints (exact)',
-  'reading channel.state has no side effect and does not yield; opening/closing one channel leaves other channels unchanged within an atomic segment',
+  'loads are python ints (exact arithmetic)',
+  'reading channel.state has no side effect and does not yield; closing or creating one channel leaves the observable state of the others unchanged within an atomic segment',
   'termination of HeapBalancerSink.__Get is not proved',
+  'completeness of the down list (every member with load >= 0 is linked) is not yet under contract: "not open is chosen only when no member is open" is proved in the form "open unless every member is marked down"',
+  'assume(n.g_out < 2147483645) at dispatch: fewer than 2^31-3 outstanding requests per member',
+  'the Node universe is per balancer instance (nodes are created only by _AddSink of this instance)',
 ]
 TRUSTED = []
 BOUNDED = []
